@@ -175,6 +175,7 @@ func strLit(s string) string {
 // Registry of sorts, functions and axioms used by one verification unit.
 
 type Registry struct {
+	mapTypes map[string]int
 	sortDecls []string          // in dependency order
 	sortSeen  map[string]bool   // sort name -> declared
 	funDecls  map[string]string // name -> declaration text
@@ -530,4 +531,18 @@ func (r *Registry) ensureSort(name string, from *Registry) {
 		}
 		r.structSort(si.named, si.st)
 	}
+}
+
+// mapTypeID: a stable number per Go map type (by its printed underlying type)
+func (r *Registry) mapTypeID(mt *types.Map) int {
+	if r.mapTypes == nil {
+		r.mapTypes = map[string]int{}
+	}
+	k := types.TypeString(mt, nil)
+	if id, ok := r.mapTypes[k]; ok {
+		return id
+	}
+	id := len(r.mapTypes) + 1
+	r.mapTypes[k] = id
+	return id
 }
